@@ -729,6 +729,9 @@ func Main(t *testing.T, c *Check) {
 		"wall_s":      wall,
 		"violations":  violations,
 	}
+	if os.Getenv("VERIF_EVIDENCE_MERGE") != "" {
+		mergeEvidence(filepath.Join(root, "evidence", c.ID+".json"), ev)
+	}
 	if os.Getenv("VERIF_NO_EVIDENCE") == "" {
 		_ = os.MkdirAll(filepath.Join(root, "evidence"), 0o755)
 		b, _ := json.MarshalIndent(ev, "", " ")
@@ -748,5 +751,84 @@ func Main(t *testing.T, c *Check) {
 		c.ID, tier, seed, tot.evals, len(tot.nontrivial), tot.ops, tot.simTime.Seconds(), wall, violations, len(sigs))
 	if violations > 0 {
 		os.Exit(1)
+	}
+}
+
+// mergeEvidence folds the numbers of an earlier run of the same check (another binary, e.g. the race-detector half
+// of C13) into ev, so that one evidence file describes the whole check.
+func mergeEvidence(path string, ev map[string]any) {
+	b, err := os.ReadFile(path)
+	if err != nil {
+		return
+	}
+	var old map[string]any
+	if json.Unmarshal(b, &old) != nil {
+		return
+	}
+	oc, _ := old["coverage"].(map[string]any)
+	nc, _ := ev["coverage"].(map[string]any)
+	if oc == nil || nc == nil {
+		return
+	}
+	num := func(m map[string]any, k string) float64 {
+		switch v := m[k].(type) {
+		case float64:
+			return v
+		case int:
+			return float64(v)
+		}
+		return 0
+	}
+	for _, k := range []string{"evaluations", "distinct_nontrivial", "operations_executed", "distinct_op_kind_sequences", "distinct_abstract_states"} {
+		nc[k] = int(num(oc, k) + num(nc, k))
+	}
+	nc["simulated_time_s"] = num(oc, "simulated_time_s") + num(nc, "simulated_time_s")
+	wall := num(old, "wall_s") + num(ev, "wall_s")
+	ev["wall_s"] = wall
+	if wall > 0 {
+		nc["scenarios_per_hour"] = num(nc, "evaluations") / wall * 3600
+	}
+	ev["violations"] = int(num(old, "violations") + num(ev, "violations"))
+	if of, ok := oc["faults_and_probes_fired"].(map[string]any); ok {
+		nf, _ := nc["faults_and_probes_fired"].(map[string]int)
+		merged := map[string]int{}
+		for k, v := range nf {
+			merged[k] = v
+		}
+		for k, v := range of {
+			if f, ok := v.(float64); ok {
+				merged[k] += int(f)
+			}
+		}
+		nc["faults_and_probes_fired"] = merged
+	}
+	if os, ok := oc["samples"].([]any); ok {
+		ns, _ := nc["samples"].([]any)
+		nc["samples"] = append(os, ns...)
+	}
+	if orule, ok := oc["rule"].(string); ok {
+		nc["rule"] = orule + " || " + fmt.Sprint(nc["rule"])
+	}
+	if ocomp, ok := oc["components"].(map[string]any); ok {
+		comp := map[string]string{}
+		for k, v := range ocomp {
+			comp[k] = fmt.Sprint(v)
+		}
+		if ncomp, ok := nc["components"].(map[string]string); ok {
+			for k, v := range ncomp {
+				comp[k] = v
+			}
+		}
+		nc["components"] = comp
+	}
+	if oa, ok := old["assumptions"].([]any); ok {
+		var as []string
+		for _, a := range oa {
+			as = append(as, fmt.Sprint(a))
+		}
+		if na, ok := ev["assumptions"].([]string); ok {
+			as = append(as, na...)
+		}
+		ev["assumptions"] = as
 	}
 }
